@@ -236,20 +236,60 @@ func SplitStatementToPieces(blob string) (pieces []string, err error) {
 	return
 }
 
+// stripDashCommentLines removes the lines of s that are "-- " comments. A line that starts
+// with "--" is only a comment when it does not begin inside a string literal, a quoted
+// identifier or a block comment and when the dashes are followed by a blank or control
+// character: `c = 'see below\n-- regards' and id in (select id from tbl)` and
+// `id = 5\n--1 or id in (select id from tbl)` must keep their second line, otherwise the
+// table names on it are hidden from every token based check.
+func stripDashCommentLines(s string) string {
+	lines := strings.Split(s, "\n")
+	kept := make([]string, 0, len(lines))
+	var quote byte // the quote character that is open at the current position, 0 = none
+	inBlockComment := false
+	for _, line := range lines {
+		line = strings.TrimSpace(line)
+		if quote == 0 && !inBlockComment && strings.HasPrefix(line, "--") && (len(line) == 2 || line[2] <= ' ') {
+			continue
+		}
+		kept = append(kept, line)
+		for i := 0; i < len(line); i++ {
+			c := line[i]
+			next := byte(0)
+			if i+1 < len(line) {
+				next = line[i+1]
+			}
+			switch {
+			case inBlockComment:
+				if c == '*' && next == '/' {
+					inBlockComment = false
+					i++
+				}
+			case quote != 0:
+				if c == '\\' && quote != '`' {
+					i++
+				} else if c == quote {
+					quote = 0 // a doubled quote closes and reopens
+				}
+			case c == '\'' || c == '"' || c == '`':
+				quote = c
+			case c == '/' && next == '*':
+				inBlockComment = true
+				i++
+			case c == '#', c == '-' && next == '-' && (i+2 == len(line) || line[i+2] <= ' '):
+				i = len(line) // rest of the line is a comment
+			}
+		}
+	}
+	return strings.Join(kept, "\n")
+}
+
 // Tokenize splits a SQL string into tokens.
 func Tokenize(s string) []string {
 	s = strings.TrimSpace(s)
 	//trim -- comments
 	if strings.HasPrefix(s, "--") {
-		lines := strings.Split(s, "\n")
-		linesNoComment := []string{}
-		for _, line := range lines {
-			line = strings.TrimSpace(line)
-			if !strings.HasPrefix(line, "--") {
-				linesNoComment = append(linesNoComment, line)
-			}
-		}
-		s = strings.Join(linesNoComment, "\n")
+		s = stripDashCommentLines(s)
 	}
 	tokens := strings.FieldsFunc(s, IsSqlSep)
 	// remove first version comment mark
